@@ -101,9 +101,17 @@ func (e *Env) BuildExec(name string, tags string, race bool) (string, error) {
 	return bin, nil
 }
 
+// ErrHang is returned by Exec when a library call did not return within the executor's step timeout; the
+// events recorded before it are on disk.
+var ErrHang = fmt.Errorf("vexec: a library call did not return (step timeout)")
+
 // Exec runs vexec on a program file.
 func (e *Env) Exec(bin, progs, events string, timeout time.Duration) error {
-	cmd := exec.Command(bin, "-in", progs, "-out", events)
+	st := "45s"
+	if e.Tier == "thorough" {
+		st = "300s"
+	}
+	cmd := exec.Command(bin, "-in", progs, "-out", events, "-steptimeout", st)
 	var errb bytes.Buffer
 	cmd.Stderr = &errb
 	cmd.Stdout = &errb
@@ -114,6 +122,9 @@ func (e *Env) Exec(bin, progs, events string, timeout time.Duration) error {
 	go func() { done <- cmd.Wait() }()
 	select {
 	case err := <-done:
+		if ee, ok := err.(*exec.ExitError); ok && ee.ExitCode() == 3 {
+			return ErrHang
+		}
 		if err != nil {
 			return fmt.Errorf("vexec: %v: %s", err, tail(errb.String(), 2000))
 		}
